@@ -212,7 +212,15 @@ def s2(ck, an):
                 if not is_set:
                     continue
                 par = getattr(owner, "_parent", None)
-                wrapped = isinstance(par, ast.Call) and ast.unparse(par.func) in ("sorted", "np.sort", "set", "len", "min", "max", "sum", "any", "all", "frozenset")
+                NORMALISING = ("sorted", "np.sort", "set", "len", "min", "max", "sum", "any", "all", "frozenset")
+                wrapped = isinstance(par, ast.Call) and ast.unparse(par.func) in NORMALISING
+                if not wrapped and isinstance(par, ast.Assign) and len(par.targets) == 1 and isinstance(par.targets[0], ast.Name):
+                    # bound to a local that is only ever handed to an order-normalising call (x = [...set...]; x = sorted(x))
+                    nm_ = par.targets[0].id
+                    uses = [x for x in walk_function(f.node) if isinstance(x, ast.Name) and x.id == nm_ and isinstance(x.ctx, ast.Load)]
+                    defs_ = [d for d in fa.rd.defs if d.var == nm_ and d.ast is par]
+                    reached = [u for u in uses if fa.cfg.node_of(u) is not None and any(d in fa.rd.reaching(nm_, fa.cfg.node_of(u).id) for d in defs_)]
+                    wrapped = bool(reached) and all(isinstance(getattr(u, "_parent", None), ast.Call) and ast.unparse(u._parent.func) in NORMALISING for u in reached)
                 ck.check(wrapped, "NONDET", "S2.no-set-order-dependence", f.short, f"{f.module.relpath}:{it.lineno}", "iteration over a set is order-normalised (sorted/len/min/...)",
                          f"{f.short} iterates over the set `{k[:50]}`: the order of the result depends on hash seeds", construct=stmt_text(owner))
 
